@@ -111,6 +111,15 @@ def _reject(text, value):
         exc = ValueError(text)
     w = WORLD
     if w is not None:
+        hook = getattr(w, "reject_hook", None)
+        if hook is not None:
+            # the application's datatype does some work of its own before
+            # it gives up (it loads a little configuration, say)
+            w.reject_hook = None
+            try:
+                hook()
+            finally:
+                w.reject_hook = hook
         w.raised.append(exc)
     raise exc
 
